@@ -15,6 +15,7 @@ mod val;
 mod visit;
 mod w_defrag;
 mod w_flow;
+mod w_ser;
 mod w_stream;
 mod worlds;
 
@@ -45,6 +46,7 @@ fn default_runs(prop: Prop, tier: Tier) -> u64 {
     let q = match prop {
         Prop::C07 => 300_000,
         Prop::C08 => 400_000,
+        Prop::C09 => 300_000,
         _ => 100_000,
     };
     match tier {
